@@ -67,7 +67,7 @@ Section C15.
      on declaration encodings: the hash table is keyed by the full encoding (Gen/DeclHash.v,
      re-extracted from computeDeclHash on every run) *)
   Theorem hash_assignment_irrelevant_src :
-    decl_hash_key_is_full_encoding = true /\
+    decl_hash_injective = true /\
     forall h h' g s ctx us,
       Inv h -> Inv h' -> content_stable_per_id s -> (forall x y, g x = g y -> x = y) ->
       run_env h (rehash g s) ctx us = run_env h' s ctx us.
